@@ -2,7 +2,7 @@
 import re
 
 CHILD_KEYS = ("f", "recv", "args", "base", "index", "e", "l", "r", "elems", "init", "cond", "then", "else",
-              "stmts", "tail", "body", "scrut", "arms", "fields", "iter", "els", "guard")
+              "iter", "stmts", "tail", "body", "scrut", "arms", "fields", "els", "guard")
 
 
 def children(n):
